@@ -75,6 +75,15 @@ impl core::ops::SubAssign<Uint128> for Uint128 {
 }
 impl Uint64 {
     pub fn is_zero(&self) -> (r: bool) ensures r == (self.0 == 0) { self.0 == 0 }
+    pub fn saturating_add(self, o: Uint64) -> (r: Uint64)
+        ensures r.0 == (if self.0 + o.0 <= u64::MAX { (self.0 + o.0) as u64 } else { u64::MAX })
+    { Uint64(self.0.saturating_add(o.0)) }
+    pub fn saturating_sub(self, o: Uint64) -> (r: Uint64)
+        ensures r.0 == (if self.0 >= o.0 { (self.0 - o.0) as u64 } else { 0u64 })
+    { Uint64(self.0.saturating_sub(o.0)) }
+    pub fn checked_mul(self, o: Uint64) -> (r: Result<Uint64, OverflowError>)
+        ensures self.0 * o.0 <= u64::MAX ==> r is Ok && r->Ok_0.0 == self.0 * o.0, self.0 * o.0 > u64::MAX ==> r is Err
+    { match self.0.checked_mul(o.0) { Some(x) => Ok(Uint64(x)), None => Err(OverflowError { k: 2 }) } }
 }
 impl Timestamp {
     /// the arithmetic helpers panic on overflow / underflow (abort): partial-correctness contracts
